@@ -1049,14 +1049,16 @@ func (o *oC08hq) OnEvent(k *Kernel, ev *Event) {
 			return
 		}
 		u := it.GetURL().Raw
+		// the statement identifies URLs by their canonical form: either spelling of this item's URL counts
+		in := func(m map[string]bool) bool { return m[u] || m[it.GetURL().String()] }
 		k.Probe("c08-hq-skips")
 		if o.failed[ev.Actor] {
 			k.Violate("C08", "seen-only-if-recorded", "skipped-after-failed-hq-seencheck", fmt.Sprintf("%s marked seen although the crawl-HQ seencheck call failed", u))
 			return
 		}
-		if !o.asked[ev.Actor][u] {
+		if !in(o.asked[ev.Actor]) {
 			k.Violate("C08", "seen-only-if-recorded", "skipped-without-asking-hq", fmt.Sprintf("%s marked seen but it was not part of the seencheck request", u))
-		} else if o.answer[ev.Actor][u] {
+		} else if in(o.answer[ev.Actor]) {
 			k.Violate("C08", "seen-only-if-recorded", "skipped-although-hq-said-unseen", fmt.Sprintf("%s marked seen although crawl HQ returned it as not seen", u))
 		}
 	case "pre.request":
@@ -1066,7 +1068,8 @@ func (o *oC08hq) OnEvent(k *Kernel, ev *Event) {
 			return
 		}
 		u := it.GetURL().Raw
-		if o.asked[ev.Actor][u] && o.answer[ev.Actor] != nil && !o.answer[ev.Actor][u] && !o.failed[ev.Actor] {
+		in := func(m map[string]bool) bool { return m[u] || m[it.GetURL().String()] }
+		if in(o.asked[ev.Actor]) && o.answer[ev.Actor] != nil && !in(o.answer[ev.Actor]) && !o.failed[ev.Actor] {
 			k.Violate("C08", "seen-honoured", "hq-seen-url-not-skipped", fmt.Sprintf("crawl HQ reported %s as seen (omitted from its answer) but a request was built for it", u))
 		}
 		k.Probe("c08-hq-requests-judged")
